@@ -1,11 +1,12 @@
 \* piggy-backed attestations (third party, wrong authority, the node own, self-attestation), replays
 SPECIFICATION MCSpec
-CONSTANTS AlreadyChecked = TRUE PkPerAuthority = TRUE CheckSubject = TRUE CheckPermission = TRUE Window = 300 RespCap = 10 FitAll = 8
+CONSTANTS AlreadyChecked = TRUE PkPerAuthority = TRUE CheckSubject = TRUE CheckPermission = TRUE CommitBeforeSend = TRUE Window = 300 RespCap = 10 FitAll = 8
   Regs = {1, 2} Senders = {1, 2} TokIdx = {2} MdIdx = {1, 2} AttIdx = {1, 2, 3, 4, 5, 6, 7} MissIdx = {1}
-  Ticks = {} OwnerPeers = {} KnownVals = {} AttSend = {} RegFirst = FALSE
-  MaxReg = 1 MaxMsg = 3 MaxTick = 0 MaxOwn = 0
+  Ticks = {} OwnerPeers = {} KnownVals = {} AttSend = {} RegFirst = FALSE FaultTabs = {}
+  MaxReg = 1 MaxMsg = 3 MaxTick = 0 MaxOwn = 0 MaxFault = 0
 INVARIANT TypeOK
 INVARIANT SignsOnlyConsented
 INVARIANT StoresOnlyValidlySigned
 INVARIANT TokensOnlyUpToPermitted
 INVARIANT TreesVerified
+INVARIANT SentOnlyRecorded
